@@ -220,7 +220,7 @@ theorem Committer.step_inv {sc : SC K B V} {T : Tree K B V} {m : Committer K B V
       cases fresh with
       | true =>
         have hkn : alookup sc.cache k = none := hFk.mp rfl
-        have hs : m.stepSC sc = { sc with evictions := sc.evictions + ((LRU.empty sc.capK : LRU B (Entry V)).add m.hash e).2.toNat } := by
+        have hs : m.stepSC sc = { sc with evictions := sc.evictions + ((LRU.empty sc.capK : LRU B (Entry V)).add m.hash e).2.toNat, entryEv := sc.entryEv + ((LRU.empty sc.capK : LRU B (Entry V)).add m.hash e).2.toNat } := by
           unfold Committer.stepSC; rw [hpc]
         have hp : m.stepPc sc = .keyPut (some ((LRU.empty sc.capK : LRU B (Entry V)).add m.hash e).1) ((k, e) :: t) := by
           unfold Committer.stepPc; rw [hpc]
@@ -245,7 +245,7 @@ theorem Committer.step_inv {sc : SC K B V} {T : Tree K B V} {m : Committer K B V
         | none => exact absurd hm0 hkn
         | some m0 =>
           have hs : m.stepSC sc = { sc with cache := aset sc.cache k (m0.add m.hash e).1,
-                                            evictions := sc.evictions + (m0.add m.hash e).2.toNat } := by
+                                            evictions := sc.evictions + (m0.add m.hash e).2.toNat, entryEv := sc.entryEv + (m0.add m.hash e).2.toNat } := by
             unfold Committer.stepSC; rw [hpc]; simp only [hm0]
           have hp : m.stepPc sc = .keyPut none ((k, e) :: t) := by unfold Committer.stepPc; rw [hpc]
           have hne : (m0.add m.hash e).2 = false := by
